@@ -184,9 +184,13 @@ def execute(arg):
                 st = ctx(rec)
                 before = stored_types(d)
                 try:
-                    with warnings.catch_warnings():
+                    import postoffice
+                    po_tr = postoffice.Tracer() if proc == "single_thread" else __import__("contextlib").nullcontext()
+                    with warnings.catch_warnings(), po_tr:
                         warnings.simplefilter("ignore")
                         x = st.get_array("0", case["target"], save=tuple(case["save"]), progress_bar=False, processor=proc, **kw)
+                    if proc == "single_thread":
+                        res["po_logs"] = po_tr.observations(completed=True)
                     rows = [tuple(int(v) for v in (r["time"], r["endtime"])) for r in x]
                     if ref_rows is None:
                         ref_rows = rows
@@ -349,6 +353,16 @@ def run(chk):
                 chk.violation(f"C11:frontends:{g}:policy{pi}:{json.dumps(dict(fe=c['fe'], has=c['has'], target=c['target'], save=c['save']), sort_keys=True)}:{b.split(',')[0][:40]}",
                               f"{g} graph, save policies {policy}, frontends {c['fe']} holding {c['has']}, target {c['target']}, save={c['save']}: {b}",
                               dict(graph=g, policy=policy, fe_case=c))
+    # the office logs of the single-thread runs, judged against the P-level of PostOffice.tla ("each needed data type reaches its
+    # consumers exactly once from exactly one origin")
+    import postoffice
+    po_obs = [dict(obs=o, key=f"{e['graph']} policy{e['pi']} stored={sorted(rr['case']['stored'])} target={rr['case']['target']} save={sorted(rr['case']['save'])} mod={rr['case']['mod']}",
+                   replay=dict(graph=e["graph"], policy=e["policy"], writable=e["writable"], case=rr["case"]))
+              for rr, e in zip(res, meta) if e["family"] == "main" for o in rr.get("po_logs", [])]
+    postoffice.validate_observations(chk, po_obs, "C11 requests", pid="C11")
+    # what multiprocessing does to the components (Inline.tla): real inline_plugins and real multiprocess runs
+    import inline
+    inline.run_part(chk, "C11")
     if res:
         chk.sample(dict(graph=meta[len(res) // 2]["graph"], policy=meta[len(res) // 2]["policy"], request=res[len(res) // 2]["case"]))
     chk.extra["frontend_cases_executed"] = nfe
@@ -359,6 +373,16 @@ def run(chk):
 
 def replay(chk, path):
     rp = json.load(open(path))["replay"]
+    if "inline" in rp or "inline_run" in rp:
+        import inline
+        if "inline" in rp:
+            x = rp["inline"]
+            rr = inline.execute((x["graph"], x["policy"], x["case"], template_dir(x["graph"])))
+        else:
+            rr = inline.real_run((rp["inline_run"]["policy"], rp["inline_run"]["case"], inline.mp_template()))
+        print(rr["bad"] or "holds")
+        V.cleanup()
+        return 1 if rr["bad"] else 0
     tpl = template_dir(rp["graph"])
     if "fe_case" in rp:
         rr = execute_fe((rp["graph"], rp["policy"], rp["fe_case"], tpl))
